@@ -428,6 +428,13 @@ def mutate(case):
     return anymodel.text_of(secs), op
 
 
+def _etag(msg):
+    """'TYPE@frame' of an 'exception' outcome, whichever route produced it"""
+    if msg.startswith("rc="):
+        msg = msg.strip().splitlines()[-1]
+    return msg.split(":")[0]
+
+
 def run_outcome(text, target, route):
     if isinstance(text, bytes) and route not in ("cli", "main"):
         route = "main"          # a file that is not text exists only as a file
@@ -498,11 +505,14 @@ def check_case(case):
                       "%s\n%s" % (got[1][:400], base_text)))
         elif got[0] == "exception":
             etype = got[1].split("@")[0]
+            if got[1].startswith("rc="):
+                # the command line routes report 'rc=1 ...\nTYPE@frame: message'
+                etype = got[1].strip().splitlines()[-1].split("@")[0]
             if etype in ("OverflowError", "ZeroDivisionError") or (etype == "ValueError" and "math domain" in got[1]):
                 # a generated function left its numeric range on this grid (e.g. an embedding function at
                 # rho = 200): the model is outside the generator's intended domain, not a structural matter
                 return {"v": [], "cls": cls, "nt": False, "skip": True}
-            v.append(("valid_model_internal_error:" + got[1].split(":")[0], "%s\n%s" % (got[1][:400], base_text)))
+            v.append(("valid_model_internal_error:" + _etag(got[1]), "%s\n%s" % (got[1][:400], base_text)))
         nfun = len(m.get("pair", [])) + len(m.get("embed", []))
         return {"v": v, "cls": cls, "nt": nfun >= 2}
     cls = ["op:" + op, "route:" + route]
@@ -518,7 +528,7 @@ def check_case(case):
     if got[0] == "ok":
         v.append(("accepted:" + op, "%s: a table was written\n%s" % (what, text)))
     elif got[0] == "exception":
-        v.append(("internal_error:%s:%s" % (op, got[1].split(":")[0]), "%s: %s\n%s" % (what, got[1][:500], text)))
+        v.append(("internal_error:%s:%s" % (op, _etag(got[1])), "%s: %s\n%s" % (what, got[1][:500], text)))
     return {"v": v, "cls": cls, "nt": True}
 
 
